@@ -1547,8 +1547,21 @@ def m_min(interp, *args, **kw):
         return interp.call_real(min, [seq], kw)
     r = seq[0]
     for x in seq[1:]:
-        r = sym.ite(lift(x) < r, x, r)
+        r = _entailed_ite(interp, lift(x) < r, x, r)
     return r
+
+
+def _entailed_ite(interp, cond, a, b):
+    """ite(cond, a, b), resolved when the path condition already decides cond (keeps terms polynomial)"""
+    import z3
+    if isinstance(cond, bool):
+        return a if cond else b
+    c = interp.ctx
+    if c.check_sat([z3.Not(cond.t)], 2000)[0] == z3.unsat:
+        return a
+    if c.check_sat([cond.t], 2000)[0] == z3.unsat:
+        return b
+    return sym.ite(cond, a, b)
 
 
 def m_max(interp, *args, **kw):
@@ -1562,7 +1575,7 @@ def m_max(interp, *args, **kw):
         return interp.call_real(max, [seq], kw)
     r = seq[0]
     for x in seq[1:]:
-        r = sym.ite(lift(x) > r, x, r)
+        r = _entailed_ite(interp, lift(x) > r, x, r)
     return r
 
 
